@@ -63,6 +63,11 @@ def desugar(raw, max_rounds=6):
                 f = t.get("func", {})
                 if not (f.get("k") == "const" and "fn" in f):
                     continue
+                if f["fn"]["path"] == "std::option::Option::<T>::zip":
+                    if _rewrite_zip(b, bi, t):
+                        n += 1
+                        changed = True
+                    continue
                 if f["fn"]["path"] in CLOSURE_CALLS:
                     if _rewrite_closure_call(b, bi, t, by_path):
                         n += 1
@@ -211,6 +216,43 @@ def _apply(B_, body, by_path, bb, fop, arg_ops, dest_local, dest_ty, unwind):
         B_.assign(bb, P(lo + 2 + i, callee["locals"][2 + i]["ty"]), {"rv": "use", "op": a})
     B_.term(bb, {"t": "goto", "target": bo, "inlined": cpath})
     return cont
+
+
+def _rewrite_zip(body, bi, t):
+    """a.zip(b): Some((x, y)) when both are Some, None otherwise — as the two nested matches"""
+    args = t["args"]
+    if len(args) != 2 or t["dest"]["p"] or t.get("target") is None:
+        return False
+    Bd = B(body, t["span"])
+    dl, dty = t["dest"]["l"], t["dest"]["ty"]
+    target = t["target"]
+    locs = []
+    for a in args:
+        if a.get("k") in ("move", "copy") and not a["pl"]["p"]:
+            locs.append((a["pl"]["l"], body["locals"][a["pl"]["l"]]["ty"]))
+        else:
+            ty = a.get("ty") or a.get("pl", {}).get("ty", "?")
+            l = Bd.local(ty)
+            Bd.assign(bi, P(l, ty), {"rv": "use", "op": a})
+            locs.append((l, ty))
+    none_bb, unreach = Bd.block(), Bd.block()
+    Bd.assign(none_bb, P(dl, dty), agg(OPTION, "None", []))
+    Bd.term(none_bb, {"t": "goto", "target": target})
+    d1 = Bd.local("isize")
+    Bd.assign(bi, P(d1, "isize"), {"rv": "discr", "pl": P(locs[0][0], locs[0][1])})
+    some1 = Bd.block()
+    Bd.term(bi, {"t": "switch", "discr": mv(d1, "isize"), "discr_ty": "isize", "arms": [["0", none_bb], ["1", some1]], "otherwise": unreach, "desugared": True})
+    d2 = Bd.local("isize")
+    Bd.assign(some1, P(d2, "isize"), {"rv": "discr", "pl": P(locs[1][0], locs[1][1])})
+    both = Bd.block()
+    Bd.term(some1, {"t": "switch", "discr": mv(d2, "isize"), "discr_ty": "isize", "arms": [["0", none_bb], ["1", both]], "otherwise": unreach, "desugared": True})
+    p1, p2, tup = Bd.local("?"), Bd.local("?"), Bd.local("(?, ?)")
+    Bd.assign(both, P(p1), {"rv": "use", "op": {"k": "move", "pl": payload_place(locs[0][0], OPTION, "Some")}})
+    Bd.assign(both, P(p2), {"rv": "use", "op": {"k": "move", "pl": payload_place(locs[1][0], OPTION, "Some")}})
+    Bd.assign(both, P(tup, "(?, ?)"), {"rv": "agg", "ak": "tuple", "ops": [mv(p1), mv(p2)]})
+    Bd.assign(both, P(dl, dty), agg(OPTION, "Some", [mv(tup, "(?, ?)")]))
+    Bd.term(both, {"t": "goto", "target": target})
+    return True
 
 
 CLOSURE_CALLS = {"std::ops::FnMut::call_mut", "std::ops::Fn::call", "std::ops::FnOnce::call_once"}
